@@ -732,6 +732,32 @@ def gls_doc(rng):
         src = src.rstrip()
     return src, {'g.glsdefs': '\n'.join(lines) + '\n'}
 
+def repeat_doc(rng):
+    """one or two definitions (often with an optional default) and 2-5 uses of them, the option mostly omitted"""
+    g = G(rng)
+    items = []
+    defs = [g.c_newcommand() for _ in range(rng.randint(1, 2))]
+    while len({d['m']['name'] for d in defs}) < len(defs):
+        defs = [g.c_newcommand() for _ in range(len(defs))]
+    for d in defs:
+        if d['m']['nargs'] and rng.random() < 0.7 and d['m']['opt'] is None:
+            d['m']['opt'] = g.names.word()
+        items += [d, {'t': 'ws', 's': '\n'}]
+    for _ in range(rng.randint(2, 5)):
+        m = rng.choice(defs)['m']
+        args = []
+        for k in range(m['nargs']):
+            if k == 0 and m['opt'] is not None:
+                args.append(g.optarg() if rng.random() < 0.3 else None)
+            else:
+                args.append(g.optarg())
+        items += [g.word(), {'t': 'ws', 's': ' '}, {'t': 'call', 'm': m, 'args': args, 'single': False, 'sp': ''},
+                  {'t': 'ws', 's': rng.choice([' ', '\n', '\n\n'])}]
+    items.append(g.word())
+    ast = {'t': 'seq', 'items': items}
+    r = R(); render(ast, r)
+    return ast, r
+
 def delim_def_doc(rng):
     """a \\def with delimited parameters and a few uses of it between words (also inside a footnote)"""
     g = G(rng)
